@@ -18,6 +18,13 @@ func vp9KeyHeader(par int) []byte {
 	// parameter ids 1,2,3: 1->2 changes only the width, 2->3 only the height, 3->1 both
 	ws := []uint64{655, 671, 671}
 	hs := []uint64{367, 367, 383}
+	if par == 4 || par == 5 {
+		// parameter ids 4, 5: profile 2 at the size of id 1, 10-bit and 12-bit (4 -> 5 changes only the bit depth):
+		// frame marker 2, profile 2 (low bit 0, high bit 1), key frame; ten_or_twelve_bit, cs=0, range=0, sizes
+		v := uint64(par-4)<<36 | (ws[0] << 16) | hs[0] // 1 + 4 colour bits + 32 size bits = 37 bits
+		v <<= 3                                        // left-align in 5 bytes
+		return []byte{0x92, 0x49, 0x83, 0x42, byte(v >> 32), byte(v >> 24), byte(v >> 16), byte(v >> 8), byte(v)}
+	}
 	w1 := ws[(par-1)%3]
 	h1 := hs[(par-1)%3]
 	v := (uint64(0) << 32) | (w1 << 16) | h1 // 4 colour bits (cs=0, range=0) + 32 size bits
@@ -175,6 +182,10 @@ func mxParOfInitCodec(c fmp4.Codec) int {
 	switch c := c.(type) {
 	case *fmp4.CodecVP9:
 		switch {
+		case c.Width == 656 && c.Height == 368 && c.Profile == 2 && c.BitDepth == 10:
+			return 4
+		case c.Width == 656 && c.Height == 368 && c.Profile == 2 && c.BitDepth == 12:
+			return 5
 		case c.Width == 656 && c.Height == 368:
 			return 1
 		case c.Width == 672 && c.Height == 368:
